@@ -186,7 +186,7 @@ def o2_6_versionset_recover(mir, tier):
                 if m is not None:
                     res.violations.append({'label': label, 'records': R, 'events': [str(e) for e in evs],
                                            'model': {str(d): str(m[d]) for d in m.decls()},
-                                           'replay': ['vs_recover', 'noreuse' if 'overwrite' in label else 'any']})
+                                           'replay': ['vs_recover', 'reuse' if 'reused manifest is not' in label else 'noreuse']})
         env = {'$state': {'events': [], 'next': 0}, '$vs': vs}
         ex.top(fn, [Ref('$vs')], env, pre, k)
         res.absorb(ex)
@@ -215,4 +215,6 @@ def o2_6_confirm(v, out):
     if 'cover the number' in lab or 'handed out again' in lab:
         try: return (int(out.get('next_file_number', '0')) < int(out.get('next_manifest', '0')) or int(out.get('next_file_number', '0')) < int(out.get('recorded_next_file', '0')), 'next file number %s, new manifest %s, recorded %s' % (out.get('next_file_number'), out.get('next_manifest'), out.get('recorded_next_file')))
         except ValueError: return (False, 'unparsable native output')
+    if 'although reuse is disabled' in lab:
+        return (out.get('reused') == 'true', 'reuse_log_files=false, recover reports reused=%s' % out.get('reused'))
     return (False, 'no native scenario for this label')
